@@ -172,6 +172,7 @@ def run(tier='quick', seed=0, only=None, verbose=False):
                      'the JAX fixed-step kernels refuse delayed models (C20 matrix); torch Euler kernel: run level only'])
     progs = families.fam_dde(seed, n=8 if tier == 'quick' else 60)
     edge_progs = families.fam_dde_edges_fixed()
+    progs = progs + families.fam_dde_pernode()
     if only:
         progs = [p for p in progs if only in p[0]]
     jobs = []
